@@ -134,7 +134,10 @@ def run(ctx):
 
 
 # sensitivity pack (thorough tier): each seeded edit must be reported by the named rule instance
-MUTANTS = [{'name': 'number-table-gated-on-sat-index', 'file': 'src/index/updater/inscription_updater.rs', 'old': '        self\n          .inscription_number_to_sequence_number\n          .insert(inscription_number, sequence_number)?;', 'new': '        if index.index_sats {\n          self\n            .inscription_number_to_sequence_number\n            .insert(inscription_number, sequence_number)?;\n        }', 'expect': ('R15.1', 'update_inscription_location', 'INSCRIPTION_NUMBER_TO_SEQUENCE_NUMBER')}]
+MUTANTS = [
+  {'name': 'seeded-C15-a', 'patch': 'C15-a/patch.diff', 'expect': ('R15.3', 'spawn_fetcher', 'counting across all result chunks')},
+  {'name': 'seeded-C15-b', 'patch': 'C15-b/patch.diff', 'expect': ('R15.1', 'Updater::commit', 'SEQUENCE_NUMBER_TO_SATPOINT')},
+{'name': 'number-table-gated-on-sat-index', 'file': 'src/index/updater/inscription_updater.rs', 'old': '        self\n          .inscription_number_to_sequence_number\n          .insert(inscription_number, sequence_number)?;', 'new': '        if index.index_sats {\n          self\n            .inscription_number_to_sequence_number\n            .insert(inscription_number, sequence_number)?;\n        }', 'expect': ('R15.1', 'update_inscription_location', 'INSCRIPTION_NUMBER_TO_SEQUENCE_NUMBER')}]
 
 
 # behaviour-preserving pack (thorough tier)
